@@ -171,6 +171,8 @@ class UnitChecker:
                 return b if a == ANY else a
             if a == ANY or b == ANY:
                 return ANY
+            if not isinstance(a, (Ty, Lit)) or not isinstance(b, (Ty, Lit)):
+                return ANY          # a container type (tuple of bounds, list): no judgement on arithmetic with it
             if isinstance(e.op, (ast.Add, ast.Sub)):
                 sign = 1 if isinstance(e.op, ast.Add) else -1
                 if isinstance(a, Lit) and isinstance(b, Lit):
